@@ -139,7 +139,8 @@ Definition nested_render_text (rend : st -> res st) (temp_root_node : option nre
   let current_heading_offset := hoff s in
   let current_level_to_section := lvl s in
   let current_root_node := troot s in
-  let s1 := set_hoff s heading_offset in
+  (* self._heading_offset = current_heading_offset + heading_offset  (offsets accumulate, fix: commit) *)
+  let s1 := set_hoff s (current_heading_offset + heading_offset) in
   let s2 := match temp_root_node with Some r => set_troot s1 (Some r) | None => s1 end in
   do s3 <- rend s2;
   let s4 := set_hoff s3 current_heading_offset in
@@ -161,7 +162,7 @@ Fixpoint render (t : tok) (s : st) {struct t} : res st :=
   | TDirective mt ts =>
       (* the directive creates its node, MockState.nested_parse: current_node_context(node) around
          nested_render_text(..., temp_root_node = node if match_titles else None) with the default
-         heading_offset 0; the returned nodes are appended to current_node afterwards *)
+         heading_offset 0 (the offset in force stays); the returned nodes are appended to current_node afterwards *)
       let c := nc s in
       let s0 := set_nc s (S c) in
       let saved := cur s0 in
@@ -171,7 +172,7 @@ Fixpoint render (t : tok) (s : st) {struct t} : res st :=
       Ok (append s2 (cur s2) (ICont c))
   | TInclude off ts =>
       (* MockIncludeDirective.run: nested_render_text(file_content, ..., heading_offset=off) at the
-         current node, no temp root; returns [] *)
+         current node, no temp root; returns []; the offset is added to the one in force *)
       nested_render_text (mfold render ts) None off s
   end.
 
